@@ -86,7 +86,12 @@ static bool run_workload(const Workload& w, std::string* why, bool* overlapped) 
       const std::string ref = exec_op(op, w);
       if (ref != res[i][j]) { *why = "thread " + std::to_string(i) + " op #" + std::to_string(j) + " (kind " + std::to_string(op.kind) + ") returned '" + res[i][j] + "' concurrently but '" + ref + "' single-threaded"; return false; }
       if (op.kind == 0) {
-        cctz::time_zone tz; cctz::load_time_zone(w.names[op.a % w.names.size()], &tz);
+        const std::string& nm = w.names[op.a % w.names.size()];
+        cctz::time_zone tz; const bool ok = cctz::load_time_zone(nm, &tz);
+        // facts that do not depend on what the cache holds by now: a loaded zone other than UTC reports the requested
+        // name, and the data version of its own source
+        if (ok && zones[i][zi] != cctz::utc_time_zone() && zones[i][zi].name() != nm) { *why = "thread " + std::to_string(i) + " loaded '" + nm + "' and obtained a zone named '" + zones[i][zi].name() + "'"; return false; }
+        if (ok && nm.compare(0, 4, "mem:") == 0 && zones[i][zi].version() != zp::version_in_name(nm)) { *why = "thread " + std::to_string(i) + " loaded '" + nm + "' whose source reports version '" + zp::version_in_name(nm) + "' and obtained version() '" + zones[i][zi].version() + "'"; return false; }
         if (zones[i][zi] != tz) { *why = "thread " + std::to_string(i) + " obtained a time_zone for '" + w.names[op.a % w.names.size()] + "' that is not equal to a later single-threaded load"; return false; }
         ++zi;
       }
@@ -197,27 +202,35 @@ static void run(const vf::Args& a, vf::Evidence& ev, vf::Reporter& rep) {
       // "/slow": the zone-data factory (harness-owned) holds the loader inside the load for 400 us
       const std::string sfx = !hammer && *vf::range<int>(0, 1) ? "/slow" : "";
       switch (kind) {
-        case 0: w.names.push_back(pfx + "/valid" + sfx); break;
+        case 0: w.names.push_back(pfx + "/valid" + sfx + *rc::gen::element<std::string>("", "", "/ver=2023c", "/ver=2024a", "/ver=2025b")); break;
         case 1: w.names.push_back(pfx + "/missing" + sfx); break;
         case 2: w.names.push_back(pfx + "/garbage" + sfx); break;
-        case 3: { char b[40]; snprintf(b, sizeof b, "Fixed/UTC+%02d:%02d:00", *vf::range<int>(0, 23), *vf::range<int>(0, 59)); w.names.push_back(b); break; }
+        case 3: {
+          // a fixed offset, sometimes under two spellings at once (the minutes/seconds fields are not range-checked
+          // individually, so +hh:mm:00 and +hh:(mm-1):60 are the same offset)
+          char b[40]; const int hh = *vf::range<int>(0, 22), mm = *vf::range<int>(1, 59);
+          snprintf(b, sizeof b, "Fixed/UTC+%02d:%02d:00", hh, mm); w.names.push_back(b);
+          if (*vf::range<int>(0, 1)) { snprintf(b, sizeof b, "Fixed/UTC+%02d:%02d:60", hh, mm - 1); w.names.push_back(b); }
+          break;
+        }
         case 4: w.names.push_back(*rc::gen::element<std::string>("UTC", "UTC0")); break;
         default: w.names.push_back(base + "/" + *rc::gen::element<std::string>("America/Los_Angeles", "Europe/Paris", "Asia/Tokyo", "Pacific/Apia", "America/Sao_Paulo")); break;
       }
     }
     const int k = *rc::gen::weightedOneOf<int>({{4, vf::range<int>(2, 8)}, {2, vf::range<int>(9, 16)}, {a.thorough() ? 1 : 0, vf::range<int>(17, 64)}});
     const int nops = hammer ? *vf::range<int>(300, 1500) : *vf::range<int>(5, 60);
-    const int hot = *vf::range<int>(0, nnames - 1);
+    const int nn = (int)w.names.size();
+    const int hot = *vf::range<int>(0, nn - 1);
     for (int t = 0; t < k; ++t) {
       std::vector<Op> ops;
       // every thread starts by loading (so first loads race), then mixes
       // the first loads concentrate on one or two "hot" names so that several threads are inside the first load of
       // the same name (valid or not) at the same time
-      ops.push_back(Op{0, *vf::range<int>(0, 2) ? hot : *vf::range<int>(0, nnames - 1), *vf::range<int64_t>(0, 15)});
+      ops.push_back(Op{0, *vf::range<int>(0, 2) ? hot : *vf::range<int>(0, nn - 1), *vf::range<int64_t>(0, 15)});
       for (int j = 1; j < nops; ++j) {
         Op op; op.kind = hammer ? *rc::gen::weightedElement<int>({{6, 1}, {8, 2}, {1, 3}, {1, 4}, {1, 6}})
                                 : *rc::gen::weightedElement<int>({{2, 0}, {6, 1}, {4, 2}, {1, 3}, {1, 4}, {1, 5}, {1, 6}, {1, 7}});
-        op.a = *vf::range<int>(0, nnames - 1);
+        op.a = *vf::range<int>(0, nn - 1);
         op.b = *rc::gen::weightedOneOf<int64_t>({{6, vf::range<int64_t>(-2500000000LL, 4200000000LL)}, {1, vf::any_i64()}, {1, rc::gen::element<int64_t>(INT64_MIN, INT64_MAX, 0, 1710054000, 1699164000)}});
         ops.push_back(op);
       }
